@@ -961,3 +961,9 @@ func unwrapNoPath(v ssa.Value) ssa.Value {
 		}
 	}
 }
+
+// StripNotValue is StripNot without the polarity.
+func StripNotValue(v ssa.Value) ssa.Value {
+	w, _ := StripNot(v)
+	return w
+}
